@@ -619,6 +619,9 @@ type replica struct {
 	attempts      int
 	attemptedTime time.Duration
 	flag          uint8
+	// extraLeaderChances counts how many times the exhausted replica has been given one more chance because
+	// another NotLeader reply named it as the leader, see onUpdateLeader.
+	extraLeaderChances int
 }
 
 func (r *replica) getEpoch() uint32 {
@@ -633,10 +636,13 @@ func (r *replica) isExhausted(maxAttempt int, maxAttemptTime time.Duration) bool
 	return r.attempts >= maxAttempt || (maxAttemptTime > 0 && r.attemptedTime >= maxAttemptTime)
 }
 
-func (r *replica) onUpdateLeader() {
-	if r.isExhausted(maxReplicaAttempt, maxReplicaAttemptTime) {
-		// Give the replica one more chance and because each follower is tried only once,
-		// it won't result in infinite retry.
+func (r *replica) onUpdateLeader(maxExtraChances int) {
+	if r.isExhausted(maxReplicaAttempt, maxReplicaAttemptTime) && r.extraLeaderChances < maxExtraChances {
+		// Give the replica one more chance. Each follower is tried only once, so the chance is given at most
+		// once for every other replica of the region: that is enough when the followers point at the leader, and
+		// it won't result in infinite retry when the replicas keep naming each other (or themselves) as the
+		// leader, in which case the hints would otherwise be followed for ever without any backoff.
+		r.extraLeaderChances++
 		r.attempts = maxReplicaAttempt - 1
 		r.attemptedTime = 0
 	}
@@ -813,7 +819,7 @@ func (s *baseReplicaSelector) updateLeader(leader *metapb.Peer) int {
 			if replica.store.getLivenessState() != reachable {
 				return -1
 			}
-			replica.onUpdateLeader()
+			replica.onUpdateLeader(len(s.replicas) - 1)
 			// Update the workTiKVIdx so that following requests can be sent to the leader immediately.
 			if !s.region.switchWorkLeaderToPeer(leader) {
 				panic("the store must exist")
